@@ -79,11 +79,11 @@ Proof. split; [exact ex_ops_src_repr | split; [exact ex_ops_ok | exact ex_ops_re
    destination read back = the cues truncated to the source's
    and then to the destination's unit.  Instances: SubRip and WebVTT below; the other codecs next to their round-trip
    theorems. *)
-Theorem C07_pair : forall uA okA encA decA uB okB encB decB,
+Theorem C07_pair : forall (SA SB : Type) uA okA (encA : plain -> res SA) decA uB okB (encB : plain -> res SB) decB,
   plain_faithful uA okA encA decA -> plain_faithful uB okB encB decB ->
   forall p, okA p -> okB (ptrunc uA p) ->
   exists src dst, encA p = Ok src /\ convert_plain decA encB src = Ok dst /\ decB dst = Ok (ptrunc uB (ptrunc uA p)).
-Proof. exact plain_pair. Qed.
+Proof. exact @plain_pair. Qed.
 Print Assumptions C07_pair.
 Theorem C07_srt_plain_faithful : plain_faithful 1000000 srt_plain_ok srt_enc srt_dec.
 Proof. exact srt_plain_faithful. Qed.
@@ -95,12 +95,12 @@ Print Assumptions C07_vtt_plain_faithful.
    models of C09-C15): the destination reads back as the operations applied to the source's cues, truncated to the
    destination's unit; whatever the operations, every resulting cue's lines are those of a source cue (of the document or
    of a merged one), so the text stays representable *)
-Theorem C07_pair_ops : forall uA okA encA decA uB okB encB decB,
+Theorem C07_pair_ops : forall (SA SB : Type) uA okA (encA : plain -> res SA) decA uB okB (encB : plain -> res SB) decB,
   plain_faithful uA okA encA decA -> plain_faithful uB okB encB decB ->
   forall ops p, okA p -> okB (ops_plain ops (ptrunc uA p)) ->
   exists src dst, encA p = Ok src /\ convert_plain_ops decA encB ops src = Ok dst /\
                   decB dst = Ok (ptrunc uB (ops_plain ops (ptrunc uA p))).
-Proof. exact plain_ops_pair. Qed.
+Proof. exact @plain_ops_pair. Qed.
 Print Assumptions C07_pair_ops.
 Theorem C07_ops_plain_keep_lines : forall (Q : list str -> Prop) ops p,
   Forall (fun c : pcue => Q (snd c)) p -> Forall (pop_ok Q) ops -> Forall (fun c : pcue => Q (snd c)) (ops_plain ops p).
@@ -132,12 +132,12 @@ Print Assumptions C07_ttml_plain_faithful.
 (* the command-line tool: every sub-command with valid flags applies its one operation between the two codecs (cli_ops is
    the flag validation of astisub/main.go; the CLI binary's output bytes are compared with cli_run for every sub-command,
    every pair of codecs and invalid flag values, suite cliplain) *)
-Theorem C07_cli : forall uA okA encA decA uB okB encB decB,
+Theorem C07_cli : forall (SA SB : Type) uA okA (encA : plain -> res SA) decA uB okB (encB : plain -> res SB) decB,
   plain_faithful uA okA encA decA -> plain_faithful uB okB encB decB ->
   forall a ops p, cli_ops a = Ok ops -> okA p -> okB (ops_plain ops (ptrunc uA p)) ->
   exists src dst, encA p = Ok src /\ cli_run decA encB a src = Ok dst /\
                   decB dst = Ok (ptrunc uB (ops_plain ops (ptrunc uA p))).
-Proof. exact cli_pair. Qed.
+Proof. exact @cli_pair. Qed.
 Print Assumptions C07_cli.
 
 Example C07_plain_example : srt_plain_ok ex_plain /\ vtt_plain_ok (ptrunc 1000000 ex_plain).
